@@ -249,12 +249,15 @@ func (keys KeyBuilder) Safe(str string) string {
 		"+", "_plus_",
 		"*", "wildcard_",
 		":", "-",
-		"..", "", // prevent directory traversal (regex allows single dots)
 	)
 	str = repl.Replace(str)
 
-	// finally remove all non-word characters
-	return safeKeyRE.ReplaceAllLiteralString(str, "")
+	// remove all non-word characters
+	str = safeKeyRE.ReplaceAllLiteralString(str, "")
+
+	// finally, prevent directory traversal (regex allows single dots);
+	// this must come last, since removing characters can join dots
+	return strings.ReplaceAll(str, "..", "")
 }
 
 // CleanUpOwnLocks immediately cleans up all
